@@ -106,6 +106,15 @@ def run(ctx):
             lines.append("msmx %s %d %d %s %s" % (ent, nb, mont, point_set(rng, n, pool), hexs(ss)))
             cls.append("api n=%s %s nb=%d mont=%d %s" % (("%d" % n if n < 20 else "%d+" % (n // 50 * 50)), ent, nb, mont, kind))
             nt.append(n >= 1)
+    # tiny inputs systematically: every entry point x scalar form x a few task counts
+    for n in (1, 2, 3):
+        for ent in ("bw", "bs"):
+            for mont in (0, 1):
+                for nb in (0, 1, 16):
+                    ss = scalar_set(rng, n, rng.choice(["random", "mixed", "mont-sparse", "max"]))
+                    lines.append("msmx %s %d %d %s %s" % (ent, nb, mont, point_set(rng, n, pool), hexs(ss)))
+                    cls.append("api tiny n=%d %s nb=%d mont=%d" % (n, ent, nb, mont))
+                    nt.append(True)
     for n, kind in big:
         ss = scalar_set(rng, n, kind, c=16)
         lines.append("msmx %s %d %d %s %s" % (rng.choice(["bw", "bs"]), rng.choice(tasks), rng.randrange(2), point_set(rng, n, pool), hexs(ss)))
